@@ -383,6 +383,53 @@ def tr_generate_constraints(repo, consumed):
     raise TranslateError('_generate_constraints: epilogue not understood')
 
 
+def tr_split_blocks(repo, consumed):
+    """are !EGROUP blocks of the same name / !INITIAL CONDITION blocks of the same
+    type merged (True) or does the later block replace the earlier one (False)"""
+    txt, tree = _src(repo, 'femio/formats/fistr/fistr.py')
+    cls = _find_class(tree, 'FrontISTRData')
+    fn = _find_func(cls, '_read_element_groups')
+    consumed['fistr.py:_read_element_groups'] = _region(txt, fn)
+    src = ast.unparse(fn)
+    old = ('self.element_groups.update({e: l.to_values(data_type=int, to_rank1=True) '
+           'for e, l in zip(egrps, series)})')
+    new = ('self.element_groups.update(self._merge_groups(egrps, '
+           '[l.to_values(data_type=int, to_rank1=True) for l in series]))')
+    if src.count(old) == 1 and new not in src:
+        merge_g = False
+    elif src.count(new) == 1 and old not in src:
+        mg = _find_func(cls, '_merge_groups')
+        consumed['fistr.py:_merge_groups'] = _region(txt, mg)
+        want = ('groups = {}\n'
+                'for name, values in zip(names, list_values):\n'
+                '    if name in groups:\n'
+                '        groups[name] = np.concatenate([groups[name], values])\n'
+                '    else:\n        groups[name] = values\n'
+                'return groups')
+        if '\n'.join(ast.unparse(x) for x in _body_wo_doc(mg)) != want:
+            raise TranslateError('_merge_groups has an unexpected shape')
+        merge_g = True
+    else:
+        raise TranslateError('_read_element_groups: !EGROUP branch not understood')
+    fn = _find_func(cls, '_read_initial_condisions')
+    consumed['fistr.py:_read_initial_condisions'] = _region(txt, fn)
+    loops = [n for n in fn.body if isinstance(n, ast.For)]
+    heads = [ast.unparse(n.target) + ' in ' + ast.unparse(n.iter) for n in loops]
+    if heads == ['(init_type, value) in zip(init_types, values)']:
+        merge_i = False
+    elif heads == ['(init_type, value) in zip(init_types, values)',
+                   '(init_type, value) in merged.items()']:
+        want = ('if init_type in merged:\n'
+                '    merged[init_type] = st.StringSeries.concat([merged[init_type], value])\n'
+                'else:\n    merged[init_type] = value')
+        if '\n'.join(ast.unparse(x) for x in loops[0].body) != want:
+            raise TranslateError('_read_initial_condisions: merge loop not understood')
+        merge_i = True
+    else:
+        raise TranslateError('_read_initial_condisions: loops not understood')
+    return merge_g, merge_i
+
+
 def tr_read_array(repo, consumed):
     txt, tree = _src(repo, 'femio/util/string_parser.py')
     cls = _find_class(tree, 'StringSeries')
@@ -408,6 +455,7 @@ def translate(repo):
     default_float_fmt = tr_read_array(repo, consumed)
     rebind_by_id = tr_remove_useless(repo, consumed)
     gen_empty_ok = tr_generate_constraints(repo, consumed)
+    merge_g, merge_i = tr_split_blocks(repo, consumed)
     if elem_fmt != '%d':
         raise TranslateError(f'element rows are written with {elem_fmt!r}, not %d')
     return {
@@ -417,6 +465,7 @@ def translate(repo):
         'default_frac_digits': _fmt_digits(default_float_fmt, 'read_array'),
         'element_types': types, 'ignore_pats': ignore, 'ignore_src': ignore_src,
         'rebind_by_id': rebind_by_id, 'gen_empty_ok': gen_empty_ok,
+        'merge_egroups': merge_g, 'merge_initial': merge_i,
     }, consumed
 
 
@@ -463,6 +512,10 @@ def emit(t):
         '(* write_fistr.py _generate_constraints: a table without any prescription gives empty',
         '   arrays (true) or makes np.concatenate raise (false) *)',
         f'Definition gen_empty_ok : bool := {"true" if t["gen_empty_ok"] else "false"}.',
+        '(* fistr.py _read_element_groups / _read_initial_condisions: blocks with the same name /',
+        '   type are merged (true) or the later block replaces the earlier one (false) *)',
+        f'Definition merge_egroups : bool := {"true" if t["merge_egroups"] else "false"}.',
+        f'Definition merge_initial : bool := {"true" if t["merge_initial"] else "false"}.',
         '',
     ]
     return '\n'.join(lines)
